@@ -133,8 +133,14 @@ CHECKS = {
              "deliberate source changes, is identical to the erasure of the instrumented branch. With C10_erase_sound (the C01 theorem) every certified "
              "program is equivalent to its source whatever the guard flags are. The quick check certifies ~90 generated programs rewritten with guards "
              "enabled and runs them with handlers that activate / deactivate the guards they are handed according to random schedules (results must equal the "
-             "plain run), plus silence templates (a function guard activated at invocation k silences invocations k+1..).",
-        note="As C01. Silence (no delivery while a guard is active) is decided by the templates, not by a theorem.",
+             "plain run), plus silence templates (a function guard activated at invocation k silences invocations k+1..) and 60 generated programs whose loop guards are "
+             "activated at first hand-out. On a fragment with while loops (model/FragLoop.v) guards are THEOREMS, for all primitive operations, subscriptions, guard settings, "
+             "ARBITRARY guard policies (any function from the stream delivered so far to the guards that are on), modules, environments and fuel: C10_frag_results (any two runs "
+             "end with the same exception and bindings), C10_frag_plain (those of the program as it is), C10_frag_stream (the subscribed events = the reference gated by the guards: "
+             "iterations starting under an inactive body guard are silent, delivery resumes after deactivation). K-loop ties model, evaluator and reference to the real rewriter, "
+             "CPython and the real runtime on 60 generated programs per run under guard rules executed by real handlers; a real run differing from the gated reference is a violation.",
+        note="As C01. Outside the loop fragment (for loops, functions, comprehensions, break / continue) silence is decided by the templates and the loop-silence oracle, not by a theorem. "
+             "model/FragLoop.v counts fuel per loop execution and treats TRACING_ENABLED as true (inside a context).",
         ref="DESIGN.md section 7 C10"),
     "C11": dict(
         technique="Coq proofs over a model whose every boolean decision is regenerated from predicate.py / tracer.py / ast_rewriter.py (meaning of conditions, any/all, exact invocation set, local guards; refutation witnesses for the recorded findings) + in-coqc correspondence with the real predicate objects and real tracers + reference-stream oracle on generated programs",
